@@ -178,3 +178,10 @@ def run(ctx):
     # the user queue receives at close: current op (above), write-completion retained (QoS0 / never acked), unacked sub/unsub, its own retained half
     sess_un = [c for c in F.callers().get(ub.key, [])]
     ctx.ob(len(sess_un) == 1, 'unbind has a single caller (the user-queue restart loop, R-C06-5)', 'keep-id|unbind-single', loc=ub.loc())
+
+    # ---- added after the mutation sweep
+    sqa = ctx.fn('ProtocolState::service_queue_aux')
+    acq = sqa.calls('ProtocolState::acquire_packet_id_for_operation')
+    ers = sqa.calls('Encoder::reset')
+    ctx.ob(len(acq) == 1 and len(ers) == 1 and sqa.dominates(acq[0].bb, ers[0].bb) and guarded_any(sqa, ers[0].bb, [r'^Try::branch\(ProtocolState::acquire_packet_id_for_operation\(.*\)\) is Continue$']),
+           'every operation is given its packet identifier (acquire_packet_id_for_operation succeeded) before the encoder is set up for it', 'bind-before-encode', loc=sqa.loc(), rule='R-C06-2')
